@@ -39,7 +39,7 @@ FIXTURE_PW = {"encrypted_1.7z": "secret", "filename_encryption.7z": "hello"}
 
 
 def plan(tier):
-    cap = 6 << 30
+    cap = 12 << 30
     if tier == "thorough":
         return {"n": None, "budget_s": int(os.environ.get("VERIF_BUDGET_S", "900")), "case_timeout": 120, "workers": 8, "rlimit_as": cap}
     return {"n": 6000, "budget_s": 150, "case_timeout": 90, "workers": 8, "rlimit_as": cap}
@@ -168,6 +168,7 @@ def run_case(case):
 
         def guarded(name, fn):
             res["evals"] += 1
+            peak0 = _vm_peak_kb()
             try:
                 with StepCounter(budget, mem_budget_bytes=512 << 20) as sc:
                     try:
@@ -175,7 +176,16 @@ def run_case(case):
                         log.append((name, "ok"))
                         return True, out
                     except MemoryError as e:
-                        viol("memory_error_under_cap", name, "%s after %r on input (%s): MemoryError" % (name, prev, "; ".join(desc)))
+                        grown = _vm_peak_kb() - peak0
+                        if grown < (1 << 20):
+                            # the address space did not grow by even 1 GiB: a codec library refused a parameter (e.g. pyppmd
+                            # raises MemoryError for a model size of 0) - an ordinary exception, not an allocation blow-up
+                            log.append((name, "MemoryError(spurious)"))
+                            res["extra"]["memoryerror_without_growth"] = res["extra"].get("memoryerror_without_growth", 0) + 1
+                            return False, e
+                        dm = declared_codec_memory(data, pw)
+                        viol("memory_error_under_cap", name, "%s after %r on input (%s): MemoryError (largest coder memory declared in the properties: %d bytes)" % (
+                            name, prev, "; ".join(desc), dm), codec_memory_declared=dm >= (1 << 30))
                         log.append((name, "MemoryError"))
                         return False, None
                     except Exception as e:
@@ -189,7 +199,9 @@ def run_case(case):
                 log.append((name, "SPIN"))
                 return None, None
             except MemBudgetExceeded:
-                viol("memory_blowup", name, "%s after %r: resident memory grew by more than 512 MiB on a %d-byte input (%s)" % (name, prev, len(data), "; ".join(desc)))
+                dm = declared_codec_memory(data, pw)
+                viol("memory_blowup", name, "%s after %r: resident memory grew by more than 512 MiB on a %d-byte input (%s; largest coder memory declared: %d)" % (
+                    name, prev, len(data), "; ".join(desc), dm), codec_memory_declared=dm >= (1 << 30))
                 log.append((name, "MEM"))
                 return None, None
 
@@ -246,6 +258,45 @@ def run_case(case):
     res["sample"] = {"base": case["base"].get("fixture", "generated archive"), "kind": case["kind"], "mutations": desc, "input_bytes": len(data),
                      "sequence": ["open"] + kinds, "outcomes": [l[1] for l in log]}
     return res
+
+
+def _vm_peak_kb():
+    try:
+        with open("/proc/self/status") as f:
+            for line in f:
+                if line.startswith("VmPeak:"):
+                    return int(line.split()[1])
+    except OSError:
+        pass
+    return 0
+
+
+def declared_codec_memory(data, pw):
+    """Largest working memory any coder of the input declares in its properties (LZMA/LZMA2 dictionary, PPMd model)."""
+    import struct as _s
+
+    best = 0
+    try:
+        a = ref7z.read(data, pw, decode_data=False)
+        folders = a.main["folders"] if a.main and a.main["folders"] else []
+    except Exception:
+        return 0
+    from ref7z import codecs as RC
+
+    for f in folders:
+        for c in f["coders"]:
+            p = c["props"] or b""
+            try:
+                if c["id"] == RC.M_LZMA and len(p) >= 5:
+                    best = max(best, _s.unpack("<I", p[1:5])[0])
+                elif c["id"] == RC.M_LZMA2 and len(p) >= 1:
+                    b = p[0]
+                    best = max(best, 0xFFFFFFFF if b >= 40 else (2 | (b & 1)) << (b // 2 + 11))
+                elif c["id"] == RC.M_PPMD and len(p) >= 5:
+                    best = max(best, _s.unpack("<I", p[1:5])[0])
+            except Exception:
+                pass
+    return best
 
 
 def _null_factory():
